@@ -8,6 +8,8 @@ import (
 	"time"
 
 	"github.com/couchbase/gocbcore/v10/memd"
+
+	"verif/journal"
 )
 
 // scLife is the single-group "stream life" scenario family behind C01, C04, C05, C06, C13 and C16:
@@ -19,6 +21,7 @@ type scLife struct {
 	restarts int
 	maxRest  int
 	closeAt  int
+	badDone  bool
 }
 
 func init() {
@@ -79,6 +82,9 @@ func (s *scLife) Configure(w *World) {
 		c.W.Close, c.W.Crash = 1, 1
 		c.ItemKindW = []int{10, 3, 2, 2, 1, 1}
 		c.Faults = false
+		if t.Draw(6, nil) == 0 {
+			c.Extra["badsnap"] = "1" // sub-scenario: the server emits an item outside its announced snapshot
+		}
 	case "C13":
 		c.W.Close = 0
 		s.closeAt = 20 + t.Draw(c.MaxSteps-20, nil)
@@ -90,11 +96,14 @@ func (s *scLife) Configure(w *World) {
 			c.DelayFaults = true
 		}
 		s.maxRest = 0
+		c.QuiesceBudget = 200 * time.Second
+		c.AdvEventMax = 20 * time.Second
 		if t.Draw(4, nil) == 0 {
 			c.Version = [3]int{5, 0, 1} // serial close path
 		}
 	case "C16":
-		c.W.Scrape, c.W.API = 3, 1
+		c.W.Scrape, c.W.API, c.W.Close = 3, 1, 1
+		s.maxRest = 0
 		c.Faults = false
 	}
 	w.buildCluster()
@@ -154,16 +163,24 @@ func (w *World) closeMember(m *Member) {
 func (s *scLife) MemberActions(w *World, m *Member) []Action {
 	c := w.cfg
 	var acts []Action
+	id := fmt.Sprintf("m%d", m.id)
+	if m.ready && (m.stopped || m.closing) && s.prop == "C16" && !m.scraping && m.lateScrapes < 4 {
+		m.lateScrapes++
+		// scraping while the stream is closing / closed must neither block nor crash
+		m.lateScrapes--
+		return []Action{{ID: "scrape|" + id, W: c.W.Scrape, Do: func() { m.lateScrapes++; m.scrape() }}}
+	}
 	if !m.ready || m.stopped || m.closing {
 		return nil
 	}
-	id := fmt.Sprintf("m%d", m.id)
 	acts = append(acts, Action{ID: "commit|" + id, W: c.W.Commit, Do: func() {
 		m.call("Commit", func() string { m.d.Commit(); return "" })
 	}})
 	acts = append(acts, Action{ID: "close|" + id, W: c.W.Close, Do: func() { w.closeMember(m) }})
 	acts = append(acts, Action{ID: "crash|" + id, W: c.W.Crash, Do: func() { m.crash() }})
-	acts = append(acts, Action{ID: "scrape|" + id, W: c.W.Scrape, Do: func() { m.scrape() }})
+	if !m.scraping {
+		acts = append(acts, Action{ID: "scrape|" + id, W: c.W.Scrape, Do: func() { m.scrape() }})
+	}
 	acts = append(acts, Action{ID: "api-offset|" + id, W: c.W.API, Do: func() { m.apiCall("GET", "/states/offset", "") }})
 	if s.prop == "C04" && m.mode == "deferred" {
 		// acknowledgements racing on different vBuckets
@@ -203,6 +220,31 @@ func (s *scLife) MemberActions(w *World, m *Member) []Action {
 
 // Actions: start a replacement member after a crash or a close.
 func (s *scLife) Actions(w *World) []Action {
+	var acts []Action
+	if s.prop == "C06" && !s.badDone && w.cfg.Extra["badsnap"] == "1" {
+		w.mu.Lock()
+		for _, st := range w.sortedStreams() {
+			st := st
+			if !w.cl.canEmit(st) || st.inSnap || st.cursor >= st.end || st.snapEnd > st.cursor {
+				continue
+			}
+			for _, variant := range []string{"above", "below", "nomarker"} {
+				variant := variant
+				if variant == "nomarker" && st.lastSent != st.cursor {
+					continue
+				}
+				acts = append(acts, Action{ID: "badsnap|" + variant + "|" + st.sid, W: 1, Do: func() {
+					s.badDone = true
+					w.jl(&journal.Ev{K: journal.KExpect, Vb: -1, S: "seqNo not in snapshot"})
+					w.fault("badsnap:"+variant, st.sid)
+					w.mu.Lock()
+					st.badSnap = variant
+					w.mu.Unlock()
+				}})
+			}
+		}
+		w.mu.Unlock()
+	}
 	live := 0
 	for _, m := range w.members {
 		if !m.crashed && !m.stopped {
@@ -210,12 +252,12 @@ func (s *scLife) Actions(w *World) []Action {
 		}
 	}
 	if live == 0 && s.restarts < s.maxRest {
-		return []Action{{ID: "restart", W: 30, Do: func() {
+		acts = append(acts, Action{ID: "restart", W: 30, Do: func() {
 			s.restarts++
 			w.addMember().start()
-		}}}
+		}})
 	}
-	return nil
+	return acts
 }
 
 func (s *scLife) OnQuiesce(w *World) {
